@@ -59,6 +59,17 @@ func VsymC02_History() {
 			_, err := l.RestoreFromS3(ctx)
 			vsym_Assert(err == nil, "C02/restore-ok")
 		}
+		if prev != nil && vsym_Bool("orphan-then-crash") {
+			// a produce whose segment reaches S3 but whose index upload fails is not acknowledged;
+			// the broker then dies and restarts from the metadata store's next offset
+			vsym_Reach("orphan")
+			s3.failOp = "upload-index"
+			_, ok := vsymProduce(ctx, l, vsymBatch(2, []byte{9, 9}))
+			vsym_Assert(!ok, "C02/produce-with-failed-index-upload-is-not-acknowledged")
+			l = vsymNewLog(s3, prev.last+1, PartitionLogConfig{}, nil)
+			_, err := l.RestoreFromS3(ctx)
+			vsym_Assert(err == nil, "C02/restore-ok")
+		}
 		count := []int32{1, 2, 1000}[vsym_Choose("count", 3)]
 		ack, ok := vsymProduce(ctx, l, vsymBatch(count, vsym_Bytes("payload", 2)))
 		vsym_Assert(ok, "C02/produce-acknowledged")
